@@ -487,7 +487,174 @@ theorem refines_host_arith (F : Libm) (h : Heap) (w : HostImpl.World) (a b : PyV
   · rcases numQ_cases ha with ⟨n, rfl, rfl⟩ | rfl <;> rcases numQ_cases hb with ⟨m, rfl, rfl⟩ | rfl
     all_goals simp_all [binopSafe, binopWith, binopPy, isNumber, pyMulF, pyFloatOf, pyMul, okVal, absRes, absVal, HostImpl.binop,
       fMul, asFloat, toFloat]
-  · sorry
+  · by_cases hy0 : y = 0
+    · subst hy0
+      rcases numQ_cases ha with ⟨n, rfl, rfl⟩ | rfl <;> rcases numQ_cases hb with ⟨m, rfl, hm⟩ | rfl
+      · have : m = 0 := Rat.intCast_eq_zero_iff.mp hm.symm
+        subst this
+        simp [binopSafe, binopWith, binopPy, isNumber, pyDiv, okVal, absRes, absVal, HostImpl.binop, caught, HostExc.isArithmetic]
+      all_goals simp_all [binopSafe, binopWith, binopPy, isNumber, pyDiv, okVal, absRes, absVal, HostImpl.binop, fDiv,
+        PyFloat.isZero, asFloat, toFloat, caught, HostExc.isArithmetic]
+    · have hr' := hr hy0
+      rcases numQ_cases ha with ⟨n, rfl, rfl⟩ | rfl <;> rcases numQ_cases hb with ⟨m, rfl, rfl⟩ | rfl
+      · have : m ≠ 0 := fun hm => hy0 (by rw [hm]; rfl)
+        simp_all [binopSafe, binopWith, binopPy, isNumber, pyDiv, okVal, absRes, absVal, HostImpl.binop]
+      all_goals simp_all [binopSafe, binopWith, binopPy, isNumber, pyDiv, okVal, absRes, absVal, HostImpl.binop, fDiv,
+        PyFloat.isZero, asFloat, toFloat]
+
+/-- **`%`** with at least one float operand (number literals and all arithmetic results are floats; `int % int` is the
+exact `Int.fmod`, tied by the correspondence stream `binopPy` only): same floor-modulo formula on both sides -/
+theorem refines_host_mod (F : Libm) (h : Heap) (w : HostImpl.World) (a b : PyVal) (x y : Rat)
+    (ha : numQ a = some x) (hb : numQ b = some y) (hx : Exact F x) (hy : Exact F y)
+    (hfl : (∃ q, a = .float (.fin q)) ∨ (∃ q, b = .float (.fin q)))
+    (hr : y ≠ 0 → Exact F (HostImpl.pyMod x y)) :
+    absRes (binopSafe F h .mod a b) = some (HostImpl.binop .mod (.num x) (.num y) w) := by
+  have fa := asFloat_exact F ha hx
+  have fb := asFloat_exact F hb hy
+  have hm : HostImpl.pyMod x y = ratFloorMod x y := rfl
+  by_cases hy0 : y = 0
+  · subst hy0
+    rcases numQ_cases ha with ⟨n, rfl, rfl⟩ | rfl <;> rcases numQ_cases hb with ⟨m, rfl, hm⟩ | rfl
+    · rcases hfl with ⟨q, hq⟩ | ⟨q, hq⟩ <;> cases hq
+    all_goals simp_all [binopSafe, binopWith, binopPy, isNumber, pyMod, okVal, absRes, absVal, HostImpl.binop, fMod,
+      PyFloat.isZero, asFloat, toFloat, caught, HostExc.isArithmetic]
+  · have hr' := hr hy0
+    rw [hm] at hr'
+    rcases numQ_cases ha with ⟨n, rfl, rfl⟩ | rfl <;> rcases numQ_cases hb with ⟨m, rfl, rfl⟩ | rfl
+    · rcases hfl with ⟨q, hq⟩ | ⟨q, hq⟩ <;> cases hq
+    all_goals simp_all [binopSafe, binopWith, binopPy, isNumber, pyMod, okVal, absRes, absVal, HostImpl.binop, fMod,
+      PyFloat.isZero, asFloat, toFloat, HostImpl.pyMod, ratFloorMod, HostImpl.ratFloor]
+
+/-- scalars: the fragment on which the two `value_compare`s are compared -/
+def isScalar : PyVal → Bool
+  | .none => true
+  | .bool _ => true
+  | .int _ => true
+  | .float (.fin _) => true
+  | .str _ => true
+  | _ => false
+
+theorem absVal_scalar {v : PyVal} (hv : isScalar v = true) : ∃ m, absVal v = some m := by
+  cases v <;> simp [isScalar] at hv <;> try exact ⟨_, rfl⟩
+  rename_i x; cases x <;> simp at hv; exact ⟨_, rfl⟩
+
+/-- `value_compare` on scalars: the host-level ladder (value.py:193-229) and `HostImpl.compare` give the same integer
+(no side condition beyond a positive recursion limit: comparison never rounds) -/
+theorem compare_scalar (F : Libm) (h : Heap) (w : HostImpl.World) (a b : PyVal) (va vb : Value)
+    (ha : isScalar a = true) (hb : isScalar b = true) (ea : absVal a = some va) (eb : absVal b = some vb)
+    (hL : 0 < F.recLimit) :
+    valueCompare F h a b = .ok (HostImpl.compare w va vb) := by
+  unfold valueCompare HostImpl.compare
+  obtain ⟨n, hn⟩ : ∃ n, F.recLimit = n + 1 := ⟨F.recLimit - 1, by omega⟩
+  rw [hn]
+  cases a <;> simp [isScalar] at ha <;> cases b <;> simp [isScalar] at hb <;>
+    simp [absVal] at ea eb <;> (try (rename_i x; cases x <;> simp at ha hb ea eb)) <;>
+    (try (rename_i x _; cases x <;> simp at ha hb ea eb)) <;>
+    subst_vars <;>
+    simp [cmpVal, HostImpl.valueCompare, cmpStr, cmp3, HostImpl.cmpOrd, isNumber, numExact, floatCmpLt, floatCmpEq,
+      typeName, HostImpl.typeName, HostImpl.boolNat, Rat.intCast_lt_intCast]
+  rename_i p q
+  cases p <;> cases q <;> simp
+
+/-- **the six comparisons on scalars** agree (they are sign tests of the same integer) -/
+theorem refines_host_cmp (F : Libm) (h : Heap) (w : HostImpl.World) (a b : PyVal) (va vb : Value)
+    (ha : isScalar a = true) (hb : isScalar b = true) (ea : absVal a = some va) (eb : absVal b = some vb)
+    (hL : 0 < F.recLimit) (op : BinOp) (hop : op = .eq ∨ op = .ne ∨ op = .le ∨ op = .lt ∨ op = .ge ∨ op = .gt) :
+    absRes (binopSafe F h op a b) = some (HostImpl.binop op va vb w) := by
+  have hc := compare_scalar F h w a b va vb ha hb ea eb hL
+  rcases hop with rfl | rfl | rfl | rfl | rfl | rfl <;>
+    simp [binopSafe, binopWith, binopPy, cmpOp, hc, absRes, absVal, HostImpl.binop]
+
+/-- **string concatenation** of a string with a string, null or a boolean (numbers are excluded here: their text goes
+through `float.__repr__` = the abstract `Libm.floatText`; tied by the exec correspondence instead) -/
+theorem refines_host_concat (F : Libm) (h : Heap) (w : HostImpl.World) (s : String) (v : PyVal) (mv : Value)
+    (hv : v = .none ∨ (∃ b, v = .bool b) ∨ (∃ t, v = .str t)) (ev : absVal v = some mv) :
+    absRes (binopSafe F h .add (.str s) v) = some (HostImpl.binop .add (.str s) mv w)
+    ∧ absRes (binopSafe F h .add v (.str s)) = some (HostImpl.binop .add mv (.str s) w) := by
+  rcases hv with rfl | ⟨b, rfl⟩ | ⟨t, rfl⟩ <;> simp [absVal] at ev <;> subst ev <;>
+    constructor <;>
+    simp [binopSafe, binopWith, binopPy, isNumber, concatL, concatR, valueString, absRes, absVal, HostImpl.binop,
+      HostImpl.valueString] <;>
+    (try (cases b <;> simp))
+
+theorem scalar_cases {v : PyVal} (hv : isScalar v = true) :
+    v = .none ∨ (∃ b, v = .bool b) ∨ (∃ n, v = .int n) ∨ (∃ q, v = .float (.fin q)) ∨ (∃ s, v = .str s) := by
+  cases v <;> simp [isScalar] at hv <;> simp
+  rename_i x; cases x <;> simp at hv; simp
+
+/-- **unsupported operand types are null on both sides**: for the arithmetic operators, scalar operands that are not
+both numbers (and, for `+`, neither is a string) -/
+theorem refines_host_unsupported (F : Libm) (h : Heap) (w : HostImpl.World) (a b : PyVal) (va vb : Value)
+    (ha : isScalar a = true) (hb : isScalar b = true) (ea : absVal a = some va) (eb : absVal b = some vb)
+    (hnn : (isNumber a && isNumber b) = false) (hns : isStr a = false ∧ isStr b = false)
+    (op : BinOp) (hop : op = .add ∨ op = .sub ∨ op = .mul ∨ op = .div ∨ op = .mod ∨ op = .pow) :
+    absRes (binopSafe F h op a b) = some .null ∧ HostImpl.binop op va vb w = .null := by
+  rcases scalar_cases ha with rfl | ⟨p, rfl⟩ | ⟨n, rfl⟩ | ⟨q, rfl⟩ | ⟨s, rfl⟩ <;>
+    rcases scalar_cases hb with rfl | ⟨p', rfl⟩ | ⟨n', rfl⟩ | ⟨q', rfl⟩ | ⟨s', rfl⟩ <;>
+    simp [isStr, isNumber] at hns hnn <;>
+    simp [absVal] at ea eb <;> subst_vars <;>
+    rcases hop with rfl | rfl | rfl | rfl | rfl | rfl <;>
+    simp [binopSafe, binopWith, binopPy, isNumber, absRes, absVal, HostImpl.binop]
+
+theorem ratPowNat_eq (x : Rat) : ∀ n, HostImpl.ratPowNat x n = HostPy.ratPowNat x n
+  | 0 => rfl
+  | n+1 => by simp [HostImpl.ratPowNat, HostPy.ratPowNat, ratPowNat_eq x n]
+
+theorem ratPowNat_zero : ∀ n, 0 < n → HostPy.ratPowNat 0 n = 0
+  | n+1, _ => by simp [HostPy.ratPowNat, Rat.zero_mul]
+
+theorem ratPowNat_one : ∀ n, HostPy.ratPowNat 1 n = 1
+  | 0 => rfl
+  | n+1 => by simp [HostPy.ratPowNat, ratPowNat_one n, Rat.mul_one]
+
+/-- **`**`** for a base `x ≥ 0` and an INTEGRAL exponent `k` (`HostImpl.binop` is null for a fractional exponent:
+"outside the driver").  Side condition: libm's `pow` returns the exact power, which is representable
+(`hpow`); the special cases `k = 0`, `x = 0` (ZeroDivisionError → null for `k < 0`), `x = 1` need nothing.
+`_partial`: negative bases (sign by parity of `k`) and fractional exponents are tied by the correspondence stream
+`binopPy` only. -/
+theorem refines_host_pow_partial (F : Libm) (h : Heap) (w : HostImpl.World) (a b : PyVal) (x : Rat) (k : Int)
+    (ha : numQ a = some x) (hb : numQ b = some (k : Rat)) (hx : Exact F x) (hy : Exact F (k : Rat)) (hx0 : 0 ≤ x)
+    (hpow : x ≠ 0 → x ≠ 1 → k ≠ 0 → F.powPos x (k : Rat) = .fin (HostPy.ratPowInt x k)) :
+    absRes (binopSafe F h .pow a b) = some (HostImpl.binop .pow (.num x) (.num (k : Rat)) w) := by
+  have na := numQ_isNumber ha
+  have nb := numQ_isNumber hb
+  have fa := asFloat_exact F ha hx
+  have fb := asFloat_exact F hb hy
+  have hpy : binopPy F h .pow a b = floatPowOut F (.fin x) (.fin (k : Rat)) := by
+    simp [binopPy, na, nb, pyPowF, pyFloatOf, fa, pyPow, asFloat, fb]
+  have hsafe : binopSafe F h .pow a b = binopWith caught F h .pow a b := rfl
+  unfold binopSafe binopWith
+  rw [hpy]
+  have hnotneg : ¬ x < 0 := Rat.not_lt.mpr hx0
+  by_cases hk0 : k = 0
+  · subst hk0
+    simp [floatPowOut, fPow, PyFloat.isZero, absRes, absVal, HostImpl.binop, HostImpl.ratPowNat]
+  · have hkq : ¬ ((k : Rat) = 0) := fun hh => hk0 (Rat.intCast_eq_zero_iff.mp hh)
+    by_cases hxz : x = 0
+    · subst hxz
+      by_cases hkneg : k < 0
+      · have : (k : Rat) < 0 := Rat.intCast_neg_iff.mpr hkneg
+        have hk' : ¬ (0 ≤ k) := by omega
+        simp [floatPowOut, fPow, PyFloat.isZero, hkq, this, absRes, absVal, HostImpl.binop, caught, HostExc.isArithmetic, hk']
+      · have : ¬ (k : Rat) < 0 := fun hh => hkneg (Rat.intCast_neg_iff.mp hh)
+        have hk' : 0 ≤ k := by omega
+        have hpos : 0 < k.toNat := by omega
+        simp [floatPowOut, fPow, PyFloat.isZero, hkq, this, absRes, absVal, HostImpl.binop, hk', ratPowNat_eq,
+          ratPowNat_zero _ hpos]
+    · by_cases hx1 : x = 1
+      · subst hx1
+        by_cases hk' : 0 ≤ k
+        · simp [floatPowOut, fPow, PyFloat.isZero, hkq, hxz, hnotneg, powPosE, absRes, absVal, HostImpl.binop, hk',
+            ratPowNat_eq, ratPowNat_one]
+        · simp [floatPowOut, fPow, PyFloat.isZero, hkq, hxz, hnotneg, powPosE, absRes, absVal, HostImpl.binop, hk',
+            ratPowNat_eq, ratPowNat_one]
+      · have hp := hpow hxz hx1 hk0
+        by_cases hk' : 0 ≤ k
+        · simp [floatPowOut, fPow, PyFloat.isZero, hkq, hxz, hnotneg, powPosE, hx1, hp, absRes, absVal, HostImpl.binop, hk',
+            ratPowNat_eq, HostPy.ratPowInt]
+        · have hnat : (-k).toNat = k.natAbs := by omega
+          simp [floatPowOut, fPow, PyFloat.isZero, hkq, hxz, hnotneg, powPosE, hx1, hp, absRes, absVal, HostImpl.binop, hk',
+            ratPowNat_eq, HostPy.ratPowInt, hnat]
 
 end refines
 
